@@ -132,6 +132,11 @@ class SubPoly(object):
   def is_zero(self):
       return not any(self.ival)
 
+  def _zeros(self,dim):
+      res = self.__class__(0,size=self.size,dim=dim)
+      if dim==0: res.ival = []
+      return res
+
   def __neg__(self):
       return self.__class__([-x for x in self.ival])
 
@@ -192,31 +197,31 @@ class SubPoly(object):
 #------------------------------------------------------------------------------
   def __and__(self,rvalue):
       assert self.size==rvalue.size
-      res = self.__class__(0,size=self.size,dim=max(self.dim,rvalue.dim))
+      res = self._zeros(max(self.dim,rvalue.dim))
       for j in range(res.dim):
           res[j] = self.e(j)&rvalue.e(j)
       return res
   def __or__(self,rvalue):
       assert self.size==rvalue.size
-      res = self.__class__(0,size=self.size,dim=max(self.dim,rvalue.dim))
+      res = self._zeros(max(self.dim,rvalue.dim))
       for j in range(res.dim):
           res[j] = self.e(j)|rvalue.e(j)
       return res
   def __xor__(self,rvalue):
       assert self.size==rvalue.size
-      res = self.__class__(0,size=self.size,dim=max(self.dim,rvalue.dim))
+      res = self._zeros(max(self.dim,rvalue.dim))
       for j in range(res.dim):
           res[j] = self.e(j)^rvalue.e(j)
       return res
   def __add__(self,rvalue):
       assert self.size==rvalue.size
-      res = self.__class__(0,size=self.size,dim=max(self.dim,rvalue.dim))
+      res = self._zeros(max(self.dim,rvalue.dim))
       for j in range(res.dim):
           res[j] = self.e(j)+rvalue.e(j)
       return res
   def __sub__(self,rvalue):
       assert self.size==rvalue.size
-      res = self.__class__(0,size=self.size,dim=max(self.dim,rvalue.dim))
+      res = self._zeros(max(self.dim,rvalue.dim))
       for j in range(res.dim):
           res[j] = self.e(j)-rvalue.e(j)
       return res
